@@ -245,3 +245,114 @@ def _consumer_contract(left, right, want):
 
 CONTRACTS += [_consumer_contract(_sref("r1"), ty.Int, "n1"), _consumer_contract(ty.Int, _sref("r1"), "n1"),
               _consumer_contract(_sref("k"), _sref("r1"), "n1"), _consumer_contract(_sref("k"), ty.Int, None)]
+
+
+# =================================================================================================
+# MemoryBuilder._optimize_to_arithmetic_feedback (C04: the folded cell IS the written function's last combinator).
+# After the call every read of the optimised memory — and the memory id itself — has exactly ONE source, the combinator that
+# computes f (no stale gate source is left, so a reader sees f's output and only that); reads of OTHER memories keep their
+# sources; the two gates of the cell are sinks of nothing any more and are marked unused; a one-step f feeds itself
+# (has_self_feedback with the cell's signal), a longer chain is closed by the edge last-combinator -> first consumer.
+# Evaluated on the REAL method with real SignalGraph / IR node / placement objects over an enumerated box
+# (0..2 readers x another memory's reader x one-step / two-step f x gates present / absent): bounded.
+# =================================================================================================
+import itertools as _it4  # noqa: E402
+
+OFQ = "dsl_compiler/src/layout/memory_builder.py::MemoryBuilder._optimize_to_arithmetic_feedback"
+
+
+def _feedback_post(a, res):
+    g, me, module = a.signal_graph, a.self, a.module
+    sc = a.self._scenario
+    arith = "arith_last"
+    ok = [list(g._sources.get("m")) == [arith]]
+    for r in sc["readers"]:
+        ok.append(list(g._sources.get(r)) == [arith])
+    if sc["other_reader"]:
+        ok.append(list(g._sources.get("read_other")) == ["other_gate"])
+    for gate in ("m_write_gate", "m_hold_gate"):
+        ok.append(all(gate not in sinks for sinks in g._sinks.values()))
+    ok += [module.optimization == "arithmetic_feedback", module.output_node_id == arith, module.write_gate_unused is True, module.hold_gate_unused is True]
+    props = me.layout_plan.get_placement(arith).properties
+    if sc["steps"] == 1 or not sc["readers"]:
+        ok += [props.get("has_self_feedback") is True, props.get("feedback_signal") == "signal-M"]
+    else:
+        first = "arith_first"
+        ok += [not props.get("has_self_feedback"), list(g._sources.get(arith)) == [arith], first in g._sinks.get(arith, [])]
+    return all(ok)
+
+
+optimize_feedback = Contract(qualname=OFQ, params={"self": ty.TOpaque("builder"), "op": ty.TOpaque("write"), "module": ty.TOpaque("module"), "signal_graph": ty.TOpaque("graph")},
+                             ensures=[("readers and the cell itself are sourced by f's last combinator alone; gates detached; the loop is closed", _feedback_post)],
+                             verify=False, properties=("C04",), note="evaluated on the real method over an enumerated box (bounded stand-in)")
+CONTRACTS.append(optimize_feedback)
+
+
+def feedback_arg_sets():
+    from dsl_compiler.src.ir.nodes import IRArith, IRMemRead, IRMemWrite, SignalRef
+    from dsl_compiler.src.layout.layout_plan import LayoutPlan
+    from dsl_compiler.src.layout.memory_builder import MemoryBuilder, MemoryModule
+    from dsl_compiler.src.layout.signal_graph import SignalGraph
+
+    class _Diag:
+        def info(self, *a, **k):
+            pass
+        warning = error = info
+
+    class _Analyzer:
+        def get_signal_name(self, t):
+            return t
+
+    out = []
+    for n_readers, other, steps, gates in _it4.product((0, 1, 2), (False, True), (1, 2), (True, False)):
+        plan = LayoutPlan()
+        for nid in ("arith_last", "arith_first", "m_write_gate", "m_hold_gate", "other_gate"):
+            plan.create_and_add_placement(ir_node_id=nid, entity_type="arithmetic-combinator" if nid.startswith("arith") else "decider-combinator",
+                                          position=None, footprint=(1, 2), role="x", debug_info={"details": "d"})
+        g = SignalGraph()
+        readers = [f"read_{i}" for i in range(n_readers)]
+        mb = object.__new__(MemoryBuilder)
+        mb.layout_plan, mb.diagnostics, mb.signal_analyzer = plan, _Diag(), _Analyzer()
+        mb._read_sources, mb._ir_nodes = {}, {}
+        g.set_source("m", "m_hold_gate")
+        for r in readers:
+            mb._read_sources[r] = "m"
+            mb._ir_nodes[r] = IRMemRead(r, "signal-M") if _ctor_ok(IRMemRead) else object()
+            g.set_source(r, "m_hold_gate")
+        if other:
+            mb._read_sources["read_other"] = "other"
+            g.set_source("read_other", "other_gate")
+        # f: one step  last = read_0 + 1 ; two steps  first = read_0 * 3, last = first + 1
+        first_operand = SignalRef("signal-M", readers[0]) if readers else 5
+        if steps == 1:
+            mb._ir_nodes["arith_last"] = _arith(IRArith, "arith_last", first_operand, 1)
+        else:
+            mb._ir_nodes["arith_first"] = _arith(IRArith, "arith_first", first_operand, 3)
+            mb._ir_nodes["arith_last"] = _arith(IRArith, "arith_last", SignalRef("signal-M", "arith_first"), 1)
+            g.set_source("arith_first", "arith_first")
+            g.add_sink("arith_first", "arith_last")
+        for r in readers:
+            g.add_sink(r, "arith_last" if steps == 1 else "arith_first")
+        g.add_sink("arith_last", "m_write_gate")
+        g.add_sink("m", "m_hold_gate")
+        module = MemoryModule("m", "signal-M")
+        if gates:
+            module.write_gate, module.hold_gate = plan.get_placement("m_write_gate"), plan.get_placement("m_hold_gate")
+        mb._scenario = {"readers": readers, "other_reader": other, "steps": steps}
+        op = IRMemWrite("m", SignalRef("signal-M", "arith_last"), 1)
+        if not gates:
+            # without gate placements the stale sink entries cannot be attributed: leave them out of the scenario
+            g._sinks["arith_last"].remove("m_write_gate")
+            g._sinks["m"].remove("m_hold_gate")
+        out.append({"self": mb, "op": op, "module": module, "signal_graph": g})
+    return out
+
+
+def _ctor_ok(cls):
+    return True
+
+
+def _arith(IRArith, nid, left, right):
+    node = IRArith(nid, "signal-M")
+    node.op, node.left, node.right = "+", left, right
+    return node
